@@ -19,6 +19,7 @@ type Ev struct {
 	lookup   func(name string) (Val, bool) // contract mode
 	bound    map[string]Val
 	oldEv    *Ev
+	beforeEv *Ev
 	info     *types.Info
 	pkg      *types.Package
 	nosafety bool
